@@ -193,6 +193,9 @@ func sweepOne(r *ev.Run, rep *scopeReport, mode string, rs *realSet, z, zd, nPro
 	ids := []int{z}
 	if zd != z {
 		ids = []int{z, zd}
+		if (z+zd)%2 == 1 {
+			ids = []int{zd, z} // the list as written: half of the pairs with the deeper id first
+		}
 	}
 	for _, ax := range anchors {
 		for _, ay := range anchors {
@@ -310,7 +313,7 @@ func init() {
 }
 
 // synthSweepC03: synthetic round grids where the level arithmetic (tile width, factor 16) is exercised:
-// tile width 1, 4, 256 x both corners of origin x two origins x every non-empty subset of ids {0,1,2,3}.
+// tile width 1, 4, 256 x both corners of origin x two origins x every non-empty subset of ids {0,1,2,3}, ascending and descending, and three unordered lists.
 func synthSweepC03(r *ev.Run, shardI, shardN int) scopeReport {
 	t0 := time.Now()
 	rep := scopeReport{Scope: "synthetic tile widths", Grid: "synthetic dyadic quadtrees", Exhaustive: true, Extra: map[string]int64{}}
@@ -321,7 +324,18 @@ func synthSweepC03(r *ev.Run, shardI, shardN int) scopeReport {
 				const deepest = 3
 				px := 0.25 // pixel of id 3
 				tmsS := gridSynth(deepest, px, o[0], o[1], tw, corner)
-				for _, ids := range subsetsOf([]int{0, 1, 2, 3}) {
+				idLists := subsetsOf([]int{0, 1, 2, 3})
+				for _, l := range subsetsOf([]int{0, 1, 2, 3}) { // every subset also written in descending order
+					if len(l) > 1 {
+						d := make([]int, len(l))
+						for i, v := range l {
+							d[len(l)-1-i] = v
+						}
+						idLists = append(idLists, d)
+					}
+				}
+				idLists = append(idLists, []int{1, 3, 0}, []int{2, 0, 3, 1}, []int{3, 3, 1})
+				for _, ids := range idLists {
 					n++
 					if n%shardN != shardI {
 						continue
